@@ -1,13 +1,15 @@
 import Aiorpcx.Common.Hex
 import Aiorpcx.C03.Model
 /-! Line-protocol driver for the C03 model.
-    in : `<repaired|pinned> <internal> <busy> <excessive> <base> ; <slots> <deadline> <throttle> ;
+    in : `<repaired|pinned> <internal> <busy> <excessive> <base> ;
+          <slots> <deadline> <throttle> <drain> ;
           <R|N|B|M> <id> <outcome> <dur> <arrival> ; ...`   (items in arrival order; B/M =
          request / notification member of the batch)
          outcome: v<n> u<n> e<code>:<msg>:<cost> r<code>:<msg>:<cost> p<code>:<msg> o<n> t
          dv<n> du<n> de<code>:<msg>:<cost> d0 x xe tt b<n>
     out: `alive=.. close=.. errors=.. cost=.. hook=.. lost=a,b replies=id:R<n>|id:E<code>:<msg>,..
-          batch=none|id:..,.. cut=none|<t> times=id@t,..` -/
+          batch=none|id:..,.. abort=none|<t> cut=none|<t> times=id@t,..`
+         (replies / batch = what reaches a peer whose send buffer drains `drain` seconds late) -/
 open Aiorpcx Aiorpcx.C03
 
 def parseTriple (s : String) : Option (Int × Nat × Nat) :=
@@ -64,23 +66,24 @@ def handle (line : String) : String :=
   match (line.splitOn ";").map (·.trimAscii.toString) with
   | hd :: tmS :: items =>
     match words hd, words tmS, (items.filter (· ≠ "")).mapM parseItem with
-    | [v, a, b, c, d], [k, p, s], some tis =>
-      match a.toInt?, b.toInt?, c.toInt?, d.toNat?, k.toNat?, p.toNat?, s.toNat? with
-      | some ie, some sb, some ex, some bc, some slots, some deadline, some throttle =>
+    | [v, a, b, c, d], [k, p, s, dr], some tis =>
+      match a.toInt?, b.toInt?, c.toInt?, d.toNat?, k.toNat?, p.toNat?, s.toNat?, dr.toNat? with
+      | some ie, some sb, some ex, some bc, some slots, some deadline, some throttle, some drain =>
         let cfg : Cfg := { internalError := ie, serverBusy := sb, excessiveUsage := ex, baseCost := bc }
         let tm : Timing := { slots, deadline, throttle }
         let var := if v == "pinned" then Variant.pinned else Variant.repaired
         let evs := schedule tm tis
         let items := evs.map (·.2)
-        let r := serve var cfg items
+        let w := serveWire var cfg drain evs
+        let r := w.base
         let cut := (evs.find? fun (_, it) =>
           let st := throttled var cfg it.outcome it.kind
           st.close || st.escapes).map (·.1)
-        let batch := match batchResponse items r with
+        let batch := match deliveredBatch drain items w with
           | some parts => String.intercalate "," (parts.map replyStr)
           | none => "none"
-        s!"alive={b01 r.alive} close={b01 r.closed} errors={r.errors} cost={r.cost} hook={r.hooks} lost={String.intercalate "," (r.lost.map toString)} replies={String.intercalate "," (r.replies.map replyStr)} batch={batch} cut={match cut with | some t => toString t | none => "none"} times={String.intercalate "," (evs.map fun (t, it) => s!"{it.id}@{t}")}"
-      | _, _, _, _, _, _, _ => "bad-op"
+        s!"alive={b01 r.alive} close={b01 r.closed} errors={r.errors} cost={r.cost} hook={r.hooks} lost={String.intercalate "," (r.lost.map toString)} replies={String.intercalate "," ((deliveredReplies drain w).map replyStr)} batch={batch} abort={match w.abortedAt with | some t => toString t | none => "none"} cut={match cut with | some t => toString t | none => "none"} times={String.intercalate "," (evs.map fun (t, it) => s!"{it.id}@{t}")}"
+      | _, _, _, _, _, _, _, _ => "bad-op"
     | _, _, _ => "bad-op"
   | _ => "bad-op"
 
